@@ -20,7 +20,7 @@ from concurrent.futures import ThreadPoolExecutor
 import vlib
 
 PID = "C08"
-RAND_BASE = 10000000
+RAND_BASE = 100000000
 
 MANIFEST = dict(
     category="model_checking",
@@ -38,7 +38,10 @@ MANIFEST = dict(
     note="Every cell runs on afero.MemMapFs and on afero.OsFs (real files in the check's scratch dir; double Close, "
          "descriptor leaks, real Seek/Read), with rotating file layouts (no final newline, 5 KB padding per entry, relative "
          "path, in-file header lines, an entry of 70 000 / 200 000 bytes with maxammosize raised, minimal read buffer) and a "
-         "fingerprint of every delivered ammo (same entry = same ammo in every pass). Bounds: entries 1..3 (rings with weights up to 6:3:3 in the thorough tier), limit 0..4, passes 0..3, "
+         "fingerprint of every delivered ammo (same entry = same ammo in every pass). A wrapper fs counts the work on the ammo "
+         "files per run (rewinds bounded by the passes needed: no spinning after the bound) and injects file faults "
+         "(Open/Close/Read/Seek/Stat) into a rotating third of the cells: sink closed, nobody blocked, short delivery "
+         "only with an error. Bounds: entries 1..3 (rings with weights up to 6:3:3 in the thorough tier), limit 0..4, passes 0..3, "
          "consumers 1..3, cut after 1 item or after 2E+3. Hang rule: no progress for 5 s (normal: microseconds), "
          "confirmed by a second run. Well-formed files only; the renderers and the projection "
          "(harness/cmd/vdrive/ammoprov_render.go) are trusted. Buffered sinks are abstracted to capacity 1-2 in "
@@ -91,7 +94,8 @@ def cell_sig(o):
     lim = "limit>0" if o["limit"] else "limit=0"
     pas = "passes>0" if o["passes"] else "passes=0"
     cut = " cut" if o["cut"] > 0 else (" precancel" if o["cut"] < 0 else "")
-    return "provider=%s mode=%s %s %s%s fs=%s" % (o["kind"], mode, lim, pas, cut, o["fs"])
+    flt = " fault=%s" % o["fault"].rstrip("0123456789") if o.get("fault") else ""
+    return "provider=%s mode=%s %s %s%s fs=%s%s" % (o["kind"], mode, lim, pas, cut, o["fs"], flt)
 
 
 def describe(o, inv):
@@ -116,6 +120,16 @@ def describe(o, inv):
     if inv == "RejectOK":
         return base + "entry over the size limit behind %d entries: Run returned=%s class=%s (%r), %d of %d consumers saw ok=false, %d delivered" % (
             o["over_at"], o["run_ret"], o["run_class"], o["run_err"], o["eofs"], o["nc"], o["count"])
+    if inv == "Work":
+        return base + "%d rewinds, %d opens, %d Read calls, %d KiB read for %d delivered (+%d drained) item(s)" % (
+            o["rewinds"], o["opens"], o["reads"], o["kbytes"], o["count"], max(o["drained"], 0))
+    if inv == "EngWork":
+        return base + "engine run: %d rewinds, %d opens for %d shots" % (o["eng_rewinds"], o["eng_opens"], o["eng_shots"])
+    if inv == "FaultOK":
+        return base + "injected fault %s (hit %d time(s)): Run returned=%s class=%s (%r); consumers done=%s, %d of %d saw " \
+            "ok=false, sink closed after cancel=%s; %d delivered" % (
+                o["fault"], o["faults_hit"], o["run_ret"], o["run_class"], o["run_err"], o["cons_done"], o["eofs"], o["nc"],
+                o["eof_after"], o["count"])
     if inv == "NoFdLeak":
         return base + "the driver process held %d open descriptors before its first cell and %d after this one" % (
             o["fds0"], o["fds"])
@@ -266,6 +280,11 @@ def run(tier, v):
         "oversize_entry_runs": sum(1 for o in rows if "+over" in o["layout"] and not o["reject"]),
         "oversize_multi_pass_runs": sum(1 for o in rows if "+over" in o["layout"] and not o["reject"] and o["count"] > len(o["w"])),
         "size_limit_control_runs": sum(1 for o in rows if o["reject"]),
+        "fault_runs": sum(1 for o in rows if o["fault"]),
+        "fault_runs_where_the_fault_fired": sum(1 for o in rows if o["fault"] and o["faults_hit"] > 0),
+        "fault_kinds": sorted({o["fault"] for o in rows if o["fault"]}),
+        "max_rewinds": max(o["rewinds"] for o in rows),
+        "rewinds_total": sum(o["rewinds"] + o["eng_rewinds"] for o in rows),
         "max_open_fds_over_baseline": max(o["fds"] - o["fds0"] for o in rows),
         "trace_spec_states": tr.distinct,
         "driver_wall_s": round(drv_wall, 1),
